@@ -666,6 +666,30 @@ func oracleC02(rep *report, r *rng) {
 				rep.sample(t.QName() + " " + tag + ": " + hx(enc))
 			}
 		}
+		// bodies larger than anything a writer may have reserved room for, into every shape of empty buffer: the
+		// layout (computed length and checksum included) must not depend on when the buffer grows
+		if !hasList(t) && !(ifaceField(t) != nil && tag != "" && entryHasList(t, tag)) {
+			return
+		}
+		for si, sz := range []int{13, 45, 260, 1100} {
+			forceListLen = sz
+			m := mk(genOpts{canonical: true})
+			forceListLen = 0
+			before := dumpMsg(m)
+			rd := &renderer{}
+			if rd.render(t.QName(), reflect.ValueOf(cloneMsg(m)).Elem(), "") != nil {
+				continue
+			}
+			for shape := 0; shape < 5 && !rep.failed(); shape++ {
+				st, enc := encodeFreshShape(cloneMsg(m), 5*(si+3*shape)+shape)
+				rep.eval("render-large/"+st, fmt.Sprint(t.Id, tag, sz, shape))
+				if st != "ok" || !bytes.Equal(enc, rd.out) {
+					off := firstDiff(enc, rd.out)
+					rep.fail(failure{Oracle: "layout", Type: t.QName(), What: fmt.Sprintf("lists of about %d entries into an empty buffer (%s): Encode %s, wire bytes differ from the pinned layout at offset %d (field %s)", sz, lastBufShape, st, off, spanAt(rd.spans, off)),
+						Input: inputOf(t, "value", shortStr(before, 20000), "tag", tag, "list_entries", sz, "library_hex", short(enc), "pinned_hex", short(rd.out), "first_difference_offset", off)})
+				}
+			}
+		}
 	})
 	// frames with their checksum service absent: the caller's value is written, in the frame's layout
 	for _, t := range frameTypes {
@@ -704,11 +728,11 @@ func revEach(b []byte, toks [][2]int) []byte {
 }
 
 func oracleC03(rep *report, r *rng) {
-	rep.Rule = "(a) every helper with a BE/LE pair x prefix types x element types x values (multi-element lists of non-palindromic numbers, lists of 0..300 entries): the LE helper's bytes must be the BE helper's bytes with each integer token reversed, and the LE reader must invert the LE writer; (b) every message type x values: every integer token of the independent pinned rendering (scalars, counts, elements, length prefixes, computed length and checksum) must appear in the library's bytes in the protocol's order, also with the checksum service absent"
+	rep.Rule = "(a) every helper with a BE/LE pair x prefix types x element types x values (multi-element lists of non-palindromic numbers, lists of 0..4100 entries): the LE helper's bytes must be the BE helper's bytes with each integer token reversed, and the LE reader must invert the LE writer; (b) every message type x values: every integer token of the independent pinned rendering (scalars, counts, elements, length prefixes, computed length and checksum) must appear in the library's bytes in the protocol's order, also with the checksum service absent"
 	loadPinned()
 	// (a) primitive pairs
 	type tokF func(val any, p primSpec) [][2]int
-	listLens := []int{0, 1, 2, 3, 5, 15, 16, 17, 20, 64, 300}
+	listLens := []int{0, 1, 2, 3, 5, 15, 16, 17, 20, 64, 300, 513, 1025, 2049, 4100}
 	for _, c := range []string{"U8", "U16", "U32", "U64"} {
 		cw := widthOf[c]
 		for _, e := range allIty {
@@ -1082,4 +1106,34 @@ func pinnedField(qn, name string) *pField {
 		}
 	}
 	return nil
+}
+
+func hasList(t *genType) bool {
+	for i := range t.Fields {
+		switch t.Fields[i].Kind {
+		case "ints", "strs", "ptrs":
+			return true
+		}
+	}
+	return false
+}
+
+// does the body type registered under the entry this tag names carry a list?
+func entryHasList(t *genType, tag string) bool {
+	fi := ifaceField(t)
+	for _, e := range tableById[fi.Tbl].Entries {
+		if fmt.Sprintf("key=%d/%q", e.KeyNum, e.KeyStr) == tag {
+			if bt, ok := typeById[e.Target]; ok {
+				return hasList(bt)
+			}
+		}
+	}
+	return false
+}
+
+func shortStr(s string, n int) string {
+	if len(s) <= n {
+		return s
+	}
+	return fmt.Sprintf("%s...(%d characters; first %d shown)", s[:n], len(s), n)
 }
